@@ -144,6 +144,11 @@ pub fn check_write(ctx: &mut Ctx, list: &[REntry], codec: u8, start: Option<usiz
     let prefill = vec![0x33u8; s0 + stale];
     let api = if asyncm { "util::write_directories_async" } else { "util::write_directories" };
     let m = mat(list, codec, start, asyncm);
+    if rng.chance(1, 8) {
+        // failed directory writes on this thread right before
+        crate::checks::common::failing_calls_before(rng, None);
+        ctx.count("writes_preceded_by_failed_calls");
+    }
     let (res, data, pos, nops) = if asyncm {
         let mut out = AInst::recording(prefill);
         out.c.pos = s0 as u64;
@@ -394,6 +399,30 @@ pub fn run(ctx: &mut Ctx) {
                     }
                     ctx.count(&format!("bracketed.{}", R::codec_name(codec)));
                 }
+                ctx.end(case);
+            }
+            case += 1;
+        }
+    }
+    // ---- few entries, all of them as wide as varints get (id gaps ~2^50, offsets up to 2^61, lengths around 2^28): lists of
+    // 700...1015 entries that nevertheless exceed the root budget (estimates of "16 bytes per entry" are wrong for them)
+    for (k, n) in [700usize, 760, 800, 900, 1000, 1015, 1016, 1024, 1025].iter().enumerate() {
+        for asyncm in [false, true] {
+            if ctx.mine(case) {
+                ctx.begin(case);
+                let mut rng = ctx.rng("c06.wide-few", k as u64 * 2 + u64::from(asyncm));
+                let mut id = rng.below(1000);
+                let list: Vec<REntry> = (0..*n)
+                    .map(|_| {
+                        id += rng.range(1 << 49, 1 << 51);
+                        REntry { tile_id: id, offset: rng.range(1 << 56, 1 << 61), length: rng.range(1 << 28, (1 << 32) - 1) as u32, run_length: 1 }
+                    })
+                    .collect();
+                for codec in [R::C_NONE, R::CODECS[1 + k % 3]] {
+                    check_write(ctx, &list, codec, None, asyncm, &mut rng);
+                }
+                ctx.case(entries_fp(&list) ^ 0xf3, true);
+                ctx.count("wide_lists_of_few_entries");
                 ctx.end(case);
             }
             case += 1;
